@@ -385,6 +385,9 @@ pub fn run_c07<K: KeyT, V: ValT>(spec: &RunSpec, step_rng_seed: u64) -> RunOutco
             if j == 0 || j as usize > log.len() {
                 continue;
             }
+            if explicit.is_empty() && crate::past_deadline() {
+                break;
+            }
             let site = log[j as usize - 1];
             let mut w: World<K, V> = match rebuild(spec, i) {
                 Some(w) => w,
